@@ -360,11 +360,13 @@ def gen_plan(rng, force=None):
     files = {}
     for n in names:
         files[n] = rng.choice(BAD_SRC) if rng.random() < 0.2 else rng.choice(GOOD_SRC)
-    manifest = force.get("manifest", rng.choice([None, None, "requirements.txt", "requirements.txt", "setup.py"]))
-    if manifest == "requirements.txt":
+    manifest = force.get("manifest", rng.choice([None, None, "requirements.txt", "requirements.txt", "setup.py", "setup.cfg", "pyproject.toml"]))
+    if "manifest_text" in force:
+        files[manifest] = force["manifest_text"]
+    elif manifest == "requirements.txt" and rng.random() < 0.4:
         files["requirements.txt"] = rng.choice(["requests==2.31.0\n", "", "flask\nsecurity==1.3.1\n"])
-    elif manifest == "setup.py":
-        files["setup.py"] = 'from setuptools import setup\n\nsetup(\n    name="p",\n    install_requires=[\n        "requests",\n    ],\n)\n'
+    elif manifest is not None:
+        files[manifest] = rng.choice(manifest_variants()[manifest])[1]
     ncm = force.get("ncm", rng.choice([0, 1, 1, 2, 2, 3]))
     cms = []
     for i in range(ncm):
@@ -670,6 +672,25 @@ def run_synthetic(ctx):
     if getattr(ctx, "deep", False):
         n *= 2
     plans = [copy.deepcopy(p) for p in CORPUS_PLANS]
+    # the manifest family, swept: every kind x text variant with a codemod that asks for a dependency (real repo manager and
+    # dependency writers); quick: one written run each + a third of them dry, thorough: four each
+    k = 0
+    for kind, variants in sorted(manifest_variants().items()):
+        for vname, text in variants:
+            # every variant with a real write; a random third (thorough: all) also as a dry run
+            modes = [False] + ([True] if (not ctx.quick() or ctx.rng.random() < 0.34) else []) + ([False, True] if not ctx.quick() else [])
+            for dry in modes:
+                k += 1
+                plan = gen_plan(ctx.rng, force={"manifest": kind, "manifest_text": text, "ncm": ctx.rng.choice([1, 1, 2]), "nfiles": ctx.rng.choice([0, 1, 2])})
+                plan["files"]["app.py"] = GOOD_SRC[0]
+                cm = plan["codemods"][0]
+                cm["dep"] = ["Security", "DefusedXML"][k % 2]
+                cm["skip"] = False
+                cm["files"]["app.py"] = {"findings": [("rule-0-a", "orig name", None, 1)] if cm["detector"] else [], "mode": "done_changed",
+                                         "reqs": [(1, "changed")], "reported": [], "adds_dep": True}
+                plan["dry_run"] = dry
+                plan["label"] = f"manifest:{kind}:{vname}" + (":dry" if dry else "")
+                plans.append(plan)
     for i in range(n):
         plans.append(gen_plan(ctx.rng))
     cases, metas = [], []
@@ -693,6 +714,9 @@ def run_synthetic(ctx):
         metas.append((plan, observed))
         nontrivial = any(r["changeset"] or r.get("failedFiles") for r in observed["results"])
         ctx.count("synthetic:codemods=%d" % len(plan["codemods"]))
+        for cid, ws in info["writes"]:
+            for ty, cs in ws:
+                ctx.count(f"synthetic:manifest_write:{ty}:" + ("changeset" if cs is not None else "none"))
         ctx.count("synthetic:" + ("nontrivial" if nontrivial else "trivial"))
         for r in observed["results"]:
             ctx.count("synthetic:changesets", len(r["changeset"]))
@@ -784,6 +808,61 @@ LIBCST_CODEMODS = ["pixee:python/use-set-literal", "pixee:python/remove-unnecess
                    "pixee:python/fix-assert-tuple", "pixee:python/fix-hasattr-call"]
 
 
+# sources on which the dependency-adding codemods fire (each adds one requirement to the project's manifest)
+DEP_SOURCES = {
+    "pixee:python/url-sandbox": {"app.py": "import requests\n\nrequests.get(host)\n"},
+    "pixee:python/use-defusedxml": {"app.py": "from xml.etree.ElementTree import parse\n\net = parse('user_input.xml')\n"},
+    "pixee:python/harden-pickle-load": {"app.py": "import pickle\n\ndata = pickle.load(fh)\n"},
+    "pixee:python/sandbox-process-creation": {"app.py": "import subprocess\n\nsubprocess.run(cmd)\n"},
+}
+REQS = "requests>=2.0\nflask\n"
+SETUP_PY = 'from setuptools import setup\n\nsetup(\n    name="p",\n    install_requires=[\n        "requests",%s\n    ],\n)%s'
+SETUP_CFG = "[metadata]\nname = p\n%s\n[options]\ninstall_requires =\n    requests\n    flask%s"
+PYPROJECT = '[project]\nname = "p"\nversion = "1"\ndependencies = [\n    "requests",%s\n]\n%s'
+TAILS = [("plain", "\n"), ("blank1", "\n\n"), ("blank3", "\n\n\n\n"), ("ws-last", "\n   "), ("ws-line", "\n  \t\n"), ("no-newline", ""),
+         ("comment-tail", "\n# trailing comment\n\n")]
+
+
+def manifest_variants():
+    """kind -> [(variant name, text)]: shapes of the manifest's text around the place where a requirement is added."""
+    out = {"requirements.txt": [], "setup.py": [], "setup.cfg": [], "pyproject.toml": []}
+    for name, tail in TAILS:
+        out["requirements.txt"].append((name, REQS.rstrip("\n") + tail))
+        out["setup.py"].append((name, SETUP_PY % ("", tail)))
+        out["setup.cfg"].append((name, SETUP_CFG % ("", tail)))
+        out["pyproject.toml"].append((name, PYPROJECT % ("", tail)))
+    out["requirements.txt"] += [("comments", "# pinned\nrequests>=2.0  # http\n\n# web\nflask\n"),
+                                ("sections", "-r base.txt\n\n# section one\nrequests>=2.0\n\n# section two\nflask\n\n"),
+                                ("empty", ""), ("only-blank", "\n\n")]
+    out["setup.py"] += [("comments", SETUP_PY % ("  # http", "\n# end\n")),
+                        ("two-lists", 'from setuptools import setup\n\nsetup(\n    name="p",\n    setup_requires=[\n        "wheel",\n    ],\n'
+                                      '    install_requires=[\n        "requests",\n    ],\n)\n\n')]
+    out["setup.cfg"] += [("comments", SETUP_CFG % ("# about\n", "\n\n# end\n")),
+                         ("sections", "[metadata]\nname = p\n\n[options]\npython_requires = >=3.8\ninstall_requires =\n    requests\n    flask\n\n"
+                                      "[options.extras_require]\ntest =\n    pytest\n\n")]
+    out["pyproject.toml"] += [("comments", PYPROJECT % ("  # http", "\n# end\n\n")),
+                              ("sections", '[build-system]\nrequires = ["setuptools"]\n\n' + PYPROJECT % ("", "\n[tool.black]\nline-length = 88\n\n")),
+                              ("poetry", '[tool.poetry]\nname = "p"\n\n[tool.poetry.dependencies]\npython = "^3.9"\nrequests = "^2.0"\n\n\n')]
+    return out
+
+
+def manifest_scenarios(ctx):
+    """(kind, variant, text, dependency-adding codemod, dry-run?) — quick: two random variants per kind (the whole family is swept
+    in-process by run_synthetic on every run); thorough: every variant twice (second codemod, dry-run flipped)."""
+    rng = ctx.rng
+    cms = sorted(DEP_SOURCES)
+    out, k = [], rng.randrange(len(cms))
+    for kind, variants in sorted(manifest_variants().items()):
+        if ctx.quick():
+            variants = rng.sample(variants, 2)
+        for vname, text in variants:
+            k += 1
+            out.append((kind, vname, text, cms[k % len(cms)], rng.random() < 0.34))
+            if not ctx.quick():
+                out.append((kind, vname, text, cms[(k + 1) % len(cms)], not out[-1][4]))
+    return out
+
+
 def sonar_issue(key, rule, path, line, start, end, message="m"):
     return {"key": key, "rule": rule, "status": "OPEN", "component": f"proj:{path}", "message": message,
             "textRange": {"startLine": line, "endLine": line, "startOffset": start, "endOffset": end}}
@@ -811,6 +890,11 @@ def scenarios(ctx):
     add("dependency-without-manifest", dep_src, ["--codemod-include", "pixee:python/url-sandbox,pixee:python/use-set-literal"])
     add("dependency-dry-run", dict(dep_src, **{"requirements.txt": "requests==2.31.0\n"}),
         ["--codemod-include", "pixee:python/url-sandbox", "--dry-run"], dry_run=True)
+    # the manifest family: every kind of manifest x shape variants of its text, with a dependency-adding codemod
+    for (kind, vname, text, dcm, dry) in manifest_scenarios(ctx):
+        add(f"manifest-{kind}-{vname}-{dcm.split('/')[-1]}" + ("-dry" if dry else ""),
+            dict(DEP_SOURCES[dcm], **{kind: text, "other.py": SNIPPETS["set"]}),
+            ["--codemod-include", dcm + ",pixee:python/use-set-literal"] + (["--dry-run"] if dry else []), dry_run=dry, wants_manifest=kind)
     # SAST: Sonar issues file (two codemods with findings, one fixed + one in a file that does not parse)
     s_files = {"t.py": "assert (1 == 1, 'msg')\nx = 1\n", "n.py": "import numpy as np\n\nif a == np.nan:\n    pass\n", "broken.py": "assert (1,\n"}
     issues = {"issues": [sonar_issue("K1", "python:S5905", "t.py", 1, 7, 22), sonar_issue("K2", "python:S6725", "n.py", 3, 3, 14),
@@ -914,6 +998,8 @@ def run_e2e(ctx):
         sc, r = o["sc"], o["run"]
         replay = {"op": "cli", "scenario": sc["name"], "project": core.b64tree(sc["files"]), "argv": sc["args"], "aux": sc.get("aux") or {}}
         ctx.count("e2e:" + sc["name"].split("-")[0])
+        if sc["name"].startswith("manifest-"):
+            ctx.count("e2e:manifest_variant:" + sc["name"].split("-", 1)[1].rsplit("-pixee", 1)[0])
         if r["rc"] != 0:
             # outside the quantifier of C15 (the CLI must return 0); the scenarios are built to complete
             ctx.notes.append(f"e2e scenario {sc['name']} exited with {r['rc']}: {r['stderr'][-300:]}")
@@ -967,6 +1053,9 @@ def run_e2e(ctx):
             ctx.notes.append(f"scenario {sc['name']} produced no failed file (generator drift)")
         if want == "manifest" and not any(cs["path"] == "requirements.txt" for x in rep["results"] for cs in x.get("changeset", [])):
             ctx.notes.append(f"scenario {sc['name']} did not rewrite the manifest (generator drift)")
+        if sc.get("wants_manifest"):
+            hit = any(cs["path"] == sc["wants_manifest"] for x in rep["results"] for cs in x.get("changeset", []))
+            ctx.count("e2e:manifest_changeset:" + sc["wants_manifest"] + (":yes" if hit else ":no"))
         docs.append((sc["name"], rep))
     # agreement of the Coq transcription with jsonschema: the real reports (abbreviated) and corruptions of them
     cases, metas = [], []
